@@ -1,8 +1,792 @@
-//! Family "ef" (stub: not implemented yet).
-use crate::Ctx;
-use serde_json::Value;
+//! Family "ef": Elias–Fano monotone sequences (properties C03, C04 and the
+//! Elias–Fano parts of C11, C12, C13, C15).
+//!
+//! Script operations (values, `u` and queries are base-2^15 limb lists, indices
+//! are plain integers):
+//!
+//!   builders   new{n,u} push{x} extend{xs} cnew{n,u} cset{i,x}
+//!              cfill{xs,parts,mode} build{kind} from{xs,kind}
+//!   structure  len get{i} iter{hints} into_iter{hints} iter_from{k,via,hints}
+//!              index_of{q} contains{q} succ{q} succ_strict{q} pred{q}
+//!              pred_strict{q} succ_unchecked{q,strict} pred_unchecked{q,strict}
+//!              mem_size reload{mode} estimate_size{n,u}
+//!
+//! The executor records what the real code returned and never judges: every
+//! event is accepted or rejected by TLC against spec/EliasFano.tla.
 
-pub fn run(_ep: &Value, _ctx: &mut Ctx) {
-    eprintln!("family ef not implemented");
-    std::process::exit(2);
+use crate::util::*;
+use crate::{guard, Ctx};
+use epserde::deser::{DeserType, Deserialize, Flags, MemCase};
+use epserde::ser::Serialize;
+use mem_dbg::{MemSize, SizeFlags};
+use serde_json::{json, Value};
+use std::ops::Deref;
+use sux::dict::elias_fano::{EfDict, EfSeq, EfSeqDict};
+use sux::prelude::*;
+
+// ---------------------------------------------------------------------------
+// number plumbing
+// ---------------------------------------------------------------------------
+fn wide(v: &Value) -> usize {
+    let x = of_limbs(v);
+    assert!(x <= u64::MAX as u128, "script value beyond usize");
+    x as usize
+}
+
+fn wide_list(v: &Value) -> Vec<usize> {
+    v.as_array().expect("list of limb lists").iter().map(wide).collect()
+}
+
+fn lim(x: usize) -> Value {
+    json!(limbs(x as u128))
+}
+
+fn lims(xs: &[usize]) -> Value {
+    Value::Array(xs.iter().map(|&x| lim(x)).collect())
+}
+
+fn pair(r: Option<(usize, usize)>) -> Value {
+    match r {
+        None => json!([]),
+        Some((i, v)) => json!([{"i": i, "v": lim(v)}]),
+    }
+}
+
+/// What an iterator did: the values it yielded, and (optionally) the three
+/// remaining-length hints observed before every call of `next` including the
+/// one that returned `None`; then two further `next` calls after exhaustion.
+struct Walk {
+    vals: Vec<usize>,
+    lens: Vec<usize>,
+    los: Vec<usize>,
+    his: Vec<Value>,
+    tail: Vec<Value>,
+}
+
+fn walk<I: ExactSizeIterator<Item = usize>>(mut it: I, hints: bool) -> Walk {
+    let mut w = Walk { vals: vec![], lens: vec![], los: vec![], his: vec![], tail: vec![] };
+    loop {
+        if hints {
+            let (lo, hi) = it.size_hint();
+            w.lens.push(it.len());
+            w.los.push(lo);
+            w.his.push(opt(hi));
+        }
+        match it.next() {
+            Some(x) => w.vals.push(x),
+            None => break,
+        }
+    }
+    for _ in 0..2 {
+        w.tail.push(match it.next() {
+            None => json!([]),
+            Some(x) => json!([lim(x)]),
+        });
+    }
+    w
+}
+
+impl Walk {
+    fn json(self, hints: bool) -> Value {
+        if hints {
+            json!({"res": lims(&self.vals), "lens": self.lens, "los": self.los, "his": self.his, "tail": self.tail})
+        } else {
+            json!({"res": lims(&self.vals), "tail": self.tail})
+        }
+    }
+}
+
+// ---------------------------------------------------------------------------
+// the structure under test behind one object-safe interface; `None` means
+// that the operation does not exist for this selection back-end
+// ---------------------------------------------------------------------------
+trait EfObj {
+    fn len(&self) -> usize;
+    fn iter(&self, hints: bool) -> Walk;
+    fn into_iter(&self, hints: bool) -> Walk;
+    fn mem(&self) -> usize;
+    fn get(&self, _i: usize) -> Option<usize> {
+        None
+    }
+    fn iter_from(&self, _k: usize, _via_trait: bool, _hints: bool) -> Option<Walk> {
+        None
+    }
+    fn index_of(&self, _q: usize) -> Option<Option<usize>> {
+        None
+    }
+    fn contains(&self, _q: usize) -> Option<bool> {
+        None
+    }
+    fn succ_unchecked(&self, _q: usize, _strict: bool) -> Option<(usize, usize)> {
+        None
+    }
+    fn pred_unchecked(&self, _q: usize, _strict: bool) -> Option<(usize, usize)> {
+        None
+    }
+    fn succ(&self, _q: usize, _strict: bool) -> Option<Option<(usize, usize)>> {
+        None
+    }
+    fn pred(&self, _q: usize, _strict: bool) -> Option<Option<(usize, usize)>> {
+        None
+    }
+}
+
+struct Plain<D>(D);
+struct Seq<D>(D);
+struct Dict<D>(D);
+struct SeqDict<D>(D);
+
+macro_rules! common {
+    () => {
+        fn len(&self) -> usize {
+            self.0.len()
+        }
+        fn iter(&self, hints: bool) -> Walk {
+            walk(self.0.iter(), hints)
+        }
+        fn into_iter(&self, hints: bool) -> Walk {
+            walk((&*self.0).into_iter(), hints)
+        }
+        fn mem(&self) -> usize {
+            (*self.0).mem_size(SizeFlags::default())
+        }
+    };
+}
+
+macro_rules! seq_part {
+    () => {
+        fn get(&self, i: usize) -> Option<usize> {
+            Some(IndexedSeq::get(&*self.0, i))
+        }
+        fn iter_from(&self, k: usize, via_trait: bool, hints: bool) -> Option<Walk> {
+            Some(if via_trait {
+                walk((&*self.0).into_iter_from(k), hints)
+            } else {
+                walk(self.0.iter_from(k), hints)
+            })
+        }
+    };
+}
+
+macro_rules! dict_part {
+    () => {
+        fn index_of(&self, q: usize) -> Option<Option<usize>> {
+            Some(IndexedDict::index_of(&*self.0, q))
+        }
+        fn contains(&self, q: usize) -> Option<bool> {
+            Some(IndexedDict::contains(&*self.0, &q))
+        }
+        fn succ_unchecked(&self, q: usize, strict: bool) -> Option<(usize, usize)> {
+            // called by the scripts only when the successor exists (documented precondition)
+            Some(unsafe {
+                if strict {
+                    SuccUnchecked::succ_unchecked::<true>(&*self.0, q)
+                } else {
+                    SuccUnchecked::succ_unchecked::<false>(&*self.0, &q)
+                }
+            })
+        }
+        fn pred_unchecked(&self, q: usize, strict: bool) -> Option<(usize, usize)> {
+            Some(unsafe {
+                if strict {
+                    PredUnchecked::pred_unchecked::<true>(&*self.0, q)
+                } else {
+                    PredUnchecked::pred_unchecked::<false>(&*self.0, &q)
+                }
+            })
+        }
+    };
+}
+
+impl<H, L, D> EfObj for Plain<D>
+where
+    D: Deref<Target = EliasFano<H, L>>,
+    H: AsRef<[usize]>,
+    L: BitFieldSlice<usize>,
+    for<'b> &'b L: IntoUncheckedIterator<Item = usize>,
+    EliasFano<H, L>: MemSize,
+{
+    common!();
+}
+
+impl<H, L, D> EfObj for Seq<D>
+where
+    D: Deref<Target = EliasFano<H, L>>,
+    H: AsRef<[usize]> + SelectUnchecked,
+    L: BitFieldSlice<usize>,
+    for<'b> &'b L: IntoUncheckedIterator<Item = usize>,
+    EliasFano<H, L>: MemSize,
+{
+    common!();
+    seq_part!();
+}
+
+impl<H, L, D> EfObj for Dict<D>
+where
+    D: Deref<Target = EliasFano<H, L>>,
+    H: AsRef<[usize]> + SelectZeroUnchecked,
+    L: BitFieldSlice<usize>,
+    for<'b> &'b L: IntoUncheckedIterator<Item = usize>,
+    for<'b> &'b L: IntoReverseUncheckedIterator<Item = usize>,
+    EliasFano<H, L>: MemSize,
+{
+    common!();
+    dict_part!();
+}
+
+impl<H, L, D> EfObj for SeqDict<D>
+where
+    D: Deref<Target = EliasFano<H, L>>,
+    H: AsRef<[usize]> + SelectUnchecked + SelectZeroUnchecked,
+    L: BitFieldSlice<usize>,
+    for<'b> &'b L: IntoUncheckedIterator<Item = usize>,
+    for<'b> &'b L: IntoReverseUncheckedIterator<Item = usize>,
+    EliasFano<H, L>: MemSize,
+{
+    common!();
+    seq_part!();
+    dict_part!();
+    fn succ(&self, q: usize, strict: bool) -> Option<Option<(usize, usize)>> {
+        Some(if strict { Succ::succ_strict(&*self.0, q) } else { Succ::succ(&*self.0, &q) })
+    }
+    fn pred(&self, q: usize, strict: bool) -> Option<Option<(usize, usize)>> {
+        Some(if strict { Pred::pred_strict(&*self.0, q) } else { Pred::pred(&*self.0, &q) })
+    }
+}
+
+// ---------------------------------------------------------------------------
+// ε-serde round trips
+// ---------------------------------------------------------------------------
+/// 16-byte aligned buffers that ε-copy instances borrow from; freed when the
+/// episode ends (after the structure has been dropped).
+struct Leaks(Vec<(*mut u8, std::alloc::Layout)>);
+
+impl Leaks {
+    fn aligned_copy(&mut self, bytes: &[u8]) -> &'static [u8] {
+        let cap = (bytes.len().max(1) + 15) / 16 * 16;
+        let layout = std::alloc::Layout::from_size_align(cap, 16).unwrap();
+        unsafe {
+            let p = std::alloc::alloc_zeroed(layout);
+            assert!(!p.is_null());
+            std::ptr::copy_nonoverlapping(bytes.as_ptr(), p, bytes.len());
+            self.0.push((p, layout));
+            std::slice::from_raw_parts(p, bytes.len())
+        }
+    }
+}
+
+impl Drop for Leaks {
+    fn drop(&mut self) {
+        for (p, l) in self.0.drain(..) {
+            unsafe { std::alloc::dealloc(p, l) }
+        }
+    }
+}
+
+type Reloader = fn(&str, &[u8], &mut Leaks) -> Result<Box<dyn EfObj>, String>;
+
+fn ser<T: Serialize>(ef: &T) -> Result<Vec<u8>, String> {
+    let mut buf = Vec::new();
+    ef.serialize(&mut buf).map_err(|e| format!("serialize: {e}"))?;
+    Ok(buf)
+}
+
+macro_rules! reloader {
+    ($name:ident, $wrap:ident) => {
+        fn $name<T>(mode: &str, bytes: &[u8], leaks: &mut Leaks) -> Result<Box<dyn EfObj>, String>
+        where
+            T: Deserialize + 'static,
+            $wrap<Box<T>>: EfObj,
+            $wrap<Box<DeserType<'static, T>>>: EfObj,
+            $wrap<MemCase<DeserType<'static, T>>>: EfObj,
+        {
+            match mode {
+                "full" => {
+                    let ef = T::deserialize_full(&mut std::io::Cursor::new(bytes))
+                        .map_err(|e| format!("deserialize_full: {e}"))?;
+                    Ok(Box::new($wrap(Box::new(ef))))
+                }
+                "eps" => {
+                    let buf = leaks.aligned_copy(bytes);
+                    let ef = T::deserialize_eps(buf).map_err(|e| format!("deserialize_eps: {e}"))?;
+                    Ok(Box::new($wrap(Box::new(ef))))
+                }
+                "mmap" => {
+                    let mut f = tempfile::NamedTempFile::new().map_err(|e| e.to_string())?;
+                    std::io::Write::write_all(&mut f, bytes).map_err(|e| e.to_string())?;
+                    std::io::Write::flush(&mut f).map_err(|e| e.to_string())?;
+                    let mc = T::mmap(f.path(), Flags::empty()).map_err(|e| format!("mmap: {e}"))?;
+                    // the mapping stays valid after the file is unlinked
+                    Ok(Box::new($wrap(mc)))
+                }
+                _ => panic!("ef: unknown reload mode {mode}"),
+            }
+        }
+    };
+}
+/// Back-ends whose ε-copy form does not implement the selection traits
+/// (SelectSmall / SelectZeroSmall implement them for boxed inventories only)
+/// can be loaded back by full deserialization only.
+macro_rules! reloader_full {
+    ($name:ident, $wrap:ident) => {
+        fn $name<T>(mode: &str, bytes: &[u8], _leaks: &mut Leaks) -> Result<Box<dyn EfObj>, String>
+        where
+            T: Deserialize + 'static,
+            $wrap<Box<T>>: EfObj,
+        {
+            match mode {
+                "full" => {
+                    let ef = T::deserialize_full(&mut std::io::Cursor::new(bytes))
+                        .map_err(|e| format!("deserialize_full: {e}"))?;
+                    Ok(Box::new($wrap(Box::new(ef))))
+                }
+                _ => Err(NA.to_string()),
+            }
+        }
+    };
+}
+reloader_full!(reload_seq_full, Seq);
+reloader_full!(reload_dict_full, Dict);
+reloader_full!(reload_seqdict_full, SeqDict);
+reloader!(reload_plain, Plain);
+reloader!(reload_seq, Seq);
+reloader!(reload_dict, Dict);
+reloader!(reload_seqdict, SeqDict);
+
+struct Built {
+    obj: Box<dyn EfObj>,
+    bytes: Option<Result<Vec<u8>, String>>,
+    reloader: Reloader,
+}
+
+macro_rules! packer {
+    ($name:ident, $wrap:ident, $rl:ident) => {
+        fn $name<T>(ef: T, needs_bytes: bool) -> Built
+        where
+            T: Serialize + Deserialize + 'static,
+            $wrap<Box<T>>: EfObj,
+            $wrap<Box<DeserType<'static, T>>>: EfObj,
+            $wrap<MemCase<DeserType<'static, T>>>: EfObj,
+        {
+            let bytes = if needs_bytes { Some(ser(&ef)) } else { None };
+            Built { obj: Box::new($wrap(Box::new(ef))), bytes, reloader: $rl::<T> }
+        }
+    };
+}
+macro_rules! packer_full {
+    ($name:ident, $wrap:ident, $rl:ident) => {
+        fn $name<T>(ef: T, needs_bytes: bool) -> Built
+        where
+            T: Serialize + Deserialize + 'static,
+            $wrap<Box<T>>: EfObj,
+        {
+            let bytes = if needs_bytes { Some(ser(&ef)) } else { None };
+            Built { obj: Box::new($wrap(Box::new(ef))), bytes, reloader: $rl::<T> }
+        }
+    };
+}
+packer_full!(pack_seq_full, Seq, reload_seq_full);
+packer_full!(pack_dict_full, Dict, reload_dict_full);
+packer_full!(pack_seqdict_full, SeqDict, reload_seqdict_full);
+packer!(pack_plain, Plain, reload_plain);
+packer!(pack_seq, Seq, reload_seq);
+packer!(pack_dict, Dict, reload_dict);
+packer!(pack_seqdict, SeqDict, reload_seqdict);
+
+type Bits = BitVec<Box<[usize]>>;
+
+/// Attaches the selection structures named by `kind` to a base structure.
+fn attach(ef: EliasFano, kind: &str, nb: bool) -> Built {
+    unsafe {
+        match kind {
+            "plain" => pack_plain(ef, nb),
+            // ---- IndexedSeq only
+            "seq" => pack_seq(ef.map_high_bits(SelectAdaptConst::<_, _, 12, 3>::new), nb),
+            "seq_c" => pack_seq(ef.map_high_bits(SelectAdaptConst::<_, _, 4, 1>::new), nb),
+            "seq_c0" => pack_seq(ef.map_high_bits(SelectAdaptConst::<_, _, 6, 0>::new), nb),
+            "seq_adapt" => pack_seq(ef.map_high_bits(|b: Bits| SelectAdapt::new(b, 3)), nb),
+            "seq_inv" => pack_seq(ef.map_high_bits(|b: Bits| SelectAdapt::with_inv(b, 3, 1)), nb),
+            "seq_sel9" => pack_seq(ef.map_high_bits(|b: Bits| Select9::new(Rank9::new(b))), nb),
+            "seq_small" => pack_seq_full(
+                ef.map_high_bits(|b: Bits| SelectSmall::<2, 9, _>::new(rank_small![0; b])),
+                nb,
+            ),
+            "seq_small3" => pack_seq_full(
+                ef.map_high_bits(|b: Bits| SelectSmall::<1, 11, _>::with_inv(rank_small![3; b], 1)),
+                nb,
+            ),
+            // ---- IndexedDict + unchecked successor / predecessor only
+            "dict" => pack_dict(ef.map_high_bits(SelectZeroAdaptConst::<_, _, 12, 3>::new), nb),
+            "dict_c" => pack_dict(ef.map_high_bits(SelectZeroAdaptConst::<_, _, 4, 1>::new), nb),
+            "dict_adapt" => pack_dict(ef.map_high_bits(|b: Bits| SelectZeroAdapt::new(b, 3)), nb),
+            "dict_small" => pack_dict_full(
+                ef.map_high_bits(|b: Bits| SelectZeroSmall::<1, 9, _>::new(rank_small![1; b])),
+                nb,
+            ),
+            // ---- everything
+            "seqdict" => pack_seqdict(
+                ef.map_high_bits(SelectAdaptConst::<_, _, 12, 3>::new)
+                    .map_high_bits(SelectZeroAdaptConst::<_, _, 12, 3>::new),
+                nb,
+            ),
+            "seqdict_c" => pack_seqdict(
+                ef.map_high_bits(SelectAdaptConst::<_, _, 4, 1>::new)
+                    .map_high_bits(SelectZeroAdaptConst::<_, _, 5, 0>::new),
+                nb,
+            ),
+            "seqdict_adapt" => pack_seqdict(
+                ef.map_high_bits(|b: Bits| SelectAdapt::new(b, 3))
+                    .map_high_bits(|b| SelectZeroAdapt::new(b, 3)),
+                nb,
+            ),
+            "seqdict_inv" => pack_seqdict(
+                ef.map_high_bits(|b: Bits| SelectAdapt::with_inv(b, 2, 0))
+                    .map_high_bits(|b| SelectZeroAdapt::with_inv(b, 3, 1)),
+                nb,
+            ),
+            "seqdict_sel9" => pack_seqdict(
+                ef.map_high_bits(|b: Bits| Select9::new(Rank9::new(b)))
+                    .map_high_bits(SelectZeroAdaptConst::<_, _, 12, 3>::new),
+                nb,
+            ),
+            "seqdict_small" => pack_seqdict_full(
+                ef.map_high_bits(|b: Bits| SelectSmall::<1, 10, _>::new(rank_small![2; b]))
+                    .map_high_bits(SelectZeroSmall::<1, 10, _>::new),
+                nb,
+            ),
+            _ => {
+                eprintln!("ef: unknown kind {kind}");
+                std::process::exit(2);
+            }
+        }
+    }
+}
+
+/// The four convenience build methods exist on both builders with the same
+/// names; everything else goes through build() + map_high_bits.
+macro_rules! build_from {
+    ($b:expr, $kind:expr, $nb:expr) => {
+        match $kind {
+            "seq" => {
+                let ef: EfSeq = $b.build_with_seq();
+                pack_seq(ef, $nb)
+            }
+            "dict" => {
+                let ef: EfDict = $b.build_with_dict();
+                pack_dict(ef, $nb)
+            }
+            "seqdict" => {
+                let ef: EfSeqDict = $b.build_with_seq_and_dict();
+                pack_seqdict(ef, $nb)
+            }
+            k => attach($b.build(), k, $nb),
+        }
+    };
+}
+
+enum St {
+    None,
+    B(EliasFanoBuilder),
+    C(EliasFanoConcurrentBuilder),
+    Ef(Built, String),
+}
+
+impl St {
+    fn proj(&self) -> Value {
+        match self {
+            St::None => json!({"form": "none"}),
+            St::B(_) => json!({"form": "builder"}),
+            St::C(_) => json!({"form": "cbuilder"}),
+            St::Ef(b, kind) => json!({"form": "ef", "kind": kind, "len": b.obj.len()}),
+        }
+    }
+}
+
+fn merge(mut a: Value, b: Value) -> Value {
+    if let (Value::Object(x), Value::Object(y)) = (&mut a, b) {
+        for (k, v) in y {
+            x.insert(k, v);
+        }
+    }
+    a
+}
+
+fn hints_of(op: &Value) -> bool {
+    op.get("hints").map_or(true, |h| h.as_bool().unwrap_or(true))
+}
+
+const NA: &str = "\u{0}na";
+
+// ---------------------------------------------------------------------------
+// C13 (sequential equivalence): while the threads of a `cfill` run, the
+// scheduling-point hook of the atomic vectors (compiled under --cfg sux_verif)
+// makes them yield at random between their atomic operations, so that real
+// interleavings of load / compare-exchange pairs on shared words do occur.
+// The hook only delays; it never changes what is computed.
+// ---------------------------------------------------------------------------
+static JITTER: std::sync::atomic::AtomicBool = std::sync::atomic::AtomicBool::new(false);
+
+fn jitter_hook(kind: u8, _word: usize) {
+    use std::cell::Cell;
+    use std::sync::atomic::Ordering::Relaxed;
+    if !JITTER.load(Relaxed) {
+        return;
+    }
+    thread_local! {
+        static RNG: Cell<u64> = Cell::new({
+            let t = std::time::SystemTime::now().duration_since(std::time::UNIX_EPOCH).unwrap().subsec_nanos() as u64;
+            (t ^ 0x9E37_79B9_7F4A_7C15) | 1
+        });
+    }
+    let r = RNG.with(|c| {
+        let mut x = c.get();
+        x ^= x << 13;
+        x ^= x >> 7;
+        x ^= x << 17;
+        c.set(x);
+        x
+    });
+    // before a compare-exchange (the window in which another writer can slip in) more often
+    let p = if kind == sux::verif::BF_CAS { 3 } else { 8 };
+    if r % p == 0 {
+        std::thread::yield_now();
+    } else if r % 64 == 1 {
+        for _ in 0..(r >> 58) * 20 {
+            std::hint::spin_loop();
+        }
+    }
+}
+
+pub fn run(ep: &Value, ctx: &mut Ctx) {
+    // declared before `st` so that borrowed buffers outlive the structure
+    let mut leaks = Leaks(Vec::new());
+    let mut st = St::None;
+    let ops = ep["ops"].as_array().unwrap();
+    let needs_bytes = ops.iter().any(|o| o["op"] == "reload");
+    let hdr = json!({"op": "BEGIN", "fam": "ef", "src": ep.get("src").cloned().unwrap_or(json!("?"))});
+    ctx.begin(&hdr);
+    ctx.emit(&hdr, "ret", st.proj());
+    for op in ops {
+        ctx.begin(op);
+        let name = op["op"].as_str().unwrap();
+        let na = || Err::<Value, String>(NA.to_string());
+        let r: Result<Value, String> = match name {
+            // ------------------------------------------------ builders
+            "new" => {
+                let (n, u) = (get_usize(op, "n"), wide(&op["u"]));
+                st = St::None;
+                guard(|| EliasFanoBuilder::new(n, u)).map(|b| {
+                    st = St::B(b);
+                    json!({})
+                })
+            }
+            "cnew" => {
+                let (n, u) = (get_usize(op, "n"), wide(&op["u"]));
+                st = St::None;
+                guard(|| EliasFanoConcurrentBuilder::new(n, u)).map(|b| {
+                    st = St::C(b);
+                    json!({})
+                })
+            }
+            "push" => match &mut st {
+                St::B(b) => {
+                    let x = wide(&op["x"]);
+                    guard(|| b.push(x)).map(|_| json!({}))
+                }
+                _ => na(),
+            },
+            "extend" => match &mut st {
+                St::B(b) => {
+                    let xs = wide_list(&op["xs"]);
+                    let r = guard(|| b.extend(xs)).map(|_| json!({}));
+                    if r.is_err() {
+                        // how much of a rejected batch was consumed is not specified:
+                        // the builder is abandoned
+                        st = St::None;
+                    }
+                    r
+                }
+                _ => na(),
+            },
+            "cset" => match &st {
+                St::C(b) => {
+                    // single-threaded use, inside the documented preconditions
+                    let (i, x) = (get_usize(op, "i"), wide(&op["x"]));
+                    guard(|| unsafe { b.set(i, x) }).map(|_| json!({}))
+                }
+                _ => na(),
+            },
+            "cfill" => match &st {
+                St::C(b) => {
+                    let xs = wide_list(&op["xs"]);
+                    let parts: Vec<Vec<usize>> = op["parts"]
+                        .as_array()
+                        .unwrap()
+                        .iter()
+                        .map(|p| p.as_array().unwrap().iter().map(|i| i.as_u64().unwrap() as usize).collect())
+                        .collect();
+                    let mode = op["mode"].as_str().unwrap();
+                    if ep.get("jitter").and_then(|j| j.as_bool()).unwrap_or(false) {
+                        sux::verif::set_atomic_pre(jitter_hook);
+                        JITTER.store(true, std::sync::atomic::Ordering::SeqCst);
+                    }
+                    let r = guard(|| match mode {
+                        "threads" => std::thread::scope(|s| {
+                            for p in &parts {
+                                let xs = &xs;
+                                s.spawn(move || {
+                                    for &i in p {
+                                        unsafe { b.set(i, xs[i]) }
+                                    }
+                                });
+                            }
+                        }),
+                        "rayon" => {
+                            use rayon::prelude::*;
+                            let order: Vec<usize> = parts.iter().flatten().copied().collect();
+                            order.par_iter().with_min_len(1).for_each(|&i| unsafe { b.set(i, xs[i]) });
+                        }
+                        _ => panic!("ef: unknown cfill mode"),
+                    })
+                    .map(|_| json!({}));
+                    JITTER.store(false, std::sync::atomic::Ordering::SeqCst);
+                    r
+                }
+                _ => na(),
+            },
+            "build" => {
+                let kind = op["kind"].as_str().unwrap();
+                match std::mem::replace(&mut st, St::None) {
+                    St::B(b) => guard(|| build_from!(b, kind, needs_bytes)).map(|x| {
+                        st = St::Ef(x, kind.to_string());
+                        json!({})
+                    }),
+                    St::C(b) => guard(|| build_from!(b, kind, needs_bytes)).map(|x| {
+                        st = St::Ef(x, kind.to_string());
+                        json!({})
+                    }),
+                    o => {
+                        st = o;
+                        na()
+                    }
+                }
+            }
+            "from" => {
+                let kind = op["kind"].as_str().unwrap();
+                let xs = wide_list(&op["xs"]);
+                let via = op.get("via").and_then(|v| v.as_str()).unwrap_or("vec");
+                st = St::None;
+                guard(|| {
+                    let ef: EliasFano = match via {
+                        "slice" => EliasFano::from(&xs[..]),
+                        "boxed" => EliasFano::from(xs.into_boxed_slice()),
+                        _ => xs.into(),
+                    };
+                    attach(ef, kind, needs_bytes)
+                })
+                .map(|x| {
+                    st = St::Ef(x, kind.to_string());
+                    json!({})
+                })
+            }
+            "estimate_size" => {
+                let (n, u) = (get_usize(op, "n"), wide(&op["u"]));
+                guard(|| EliasFano::<Bits>::estimate_size(u, n)).map(|r| json!({"res": lim(r)}))
+            }
+            // ------------------------------------------------ the structure
+            _ => match &mut st {
+                St::Ef(b, _) => {
+                    let o = &b.obj;
+                    let q = || wide(&op["q"]);
+                    let strict = || get_bool(op, "strict");
+                    let h = hints_of(op);
+                    match name {
+                        "len" => guard(|| o.len()).map(|r| json!({"res": r})),
+                        "iter" => guard(|| o.iter(h)).map(|w| w.json(h)),
+                        "into_iter" => guard(|| o.into_iter(h)).map(|w| w.json(h)),
+                        "mem_size" => guard(|| o.mem()).map(|r| json!({"res": r})),
+                        "get" => match guard(|| o.get(get_usize(op, "i"))) {
+                            Ok(Some(r)) => Ok(json!({"res": lim(r)})),
+                            Ok(None) => na(),
+                            Err(m) => Err(m),
+                        },
+                        "iter_from" => {
+                            let via = op.get("via").and_then(|v| v.as_str()).unwrap_or("method") == "trait";
+                            match guard(|| o.iter_from(get_usize(op, "k"), via, h)) {
+                                Ok(Some(w)) => Ok(w.json(h)),
+                                Ok(None) => na(),
+                                Err(m) => Err(m),
+                            }
+                        }
+                        "index_of" => match guard(|| o.index_of(q())) {
+                            Ok(Some(r)) => Ok(json!({"res": opt(r)})),
+                            Ok(None) => na(),
+                            Err(m) => Err(m),
+                        },
+                        "contains" => match guard(|| o.contains(q())) {
+                            Ok(Some(r)) => Ok(json!({"res": r})),
+                            Ok(None) => na(),
+                            Err(m) => Err(m),
+                        },
+                        "succ" | "succ_strict" => match guard(|| o.succ(q(), name == "succ_strict")) {
+                            Ok(Some(r)) => Ok(json!({"res": pair(r)})),
+                            Ok(None) => na(),
+                            Err(m) => Err(m),
+                        },
+                        "pred" | "pred_strict" => match guard(|| o.pred(q(), name == "pred_strict")) {
+                            Ok(Some(r)) => Ok(json!({"res": pair(r)})),
+                            Ok(None) => na(),
+                            Err(m) => Err(m),
+                        },
+                        "succ_unchecked" => match guard(|| o.succ_unchecked(q(), strict())) {
+                            Ok(Some(r)) => Ok(json!({"res": pair(Some(r))})),
+                            Ok(None) => na(),
+                            Err(m) => Err(m),
+                        },
+                        "pred_unchecked" => match guard(|| o.pred_unchecked(q(), strict())) {
+                            Ok(Some(r)) => Ok(json!({"res": pair(Some(r))})),
+                            Ok(None) => na(),
+                            Err(m) => Err(m),
+                        },
+                        "reload" => {
+                            let mode = op["mode"].as_str().unwrap();
+                            let rl = b.reloader;
+                            let r = match b.bytes.as_ref().expect("bytes kept for reload") {
+                                Err(m) => Err(m.clone()),
+                                Ok(bytes) => match guard(|| rl(mode, bytes, &mut leaks)) {
+                                    Ok(Ok(n)) => Ok(n),
+                                    Ok(Err(m)) => Err(m), // includes NA: mode not available for this back-end
+                                    Err(m) => Err(m),
+                                },
+                            };
+                            r.map(|n| {
+                                b.obj = n;
+                                json!({})
+                            })
+                        }
+                        _ => {
+                            eprintln!("ef: unknown op {name}");
+                            std::process::exit(2);
+                        }
+                    }
+                }
+                _ => match name {
+                    "len" | "iter" | "into_iter" | "mem_size" | "get" | "iter_from" | "index_of" | "contains"
+                    | "succ" | "succ_strict" | "pred" | "pred_strict" | "succ_unchecked" | "pred_unchecked"
+                    | "reload" => na(),
+                    _ => {
+                        eprintln!("ef: unknown op {name}");
+                        std::process::exit(2);
+                    }
+                },
+            },
+        };
+        match r {
+            Ok(f) => ctx.emit(op, "ret", merge(f, st.proj())),
+            Err(m) if m == NA => ctx.emit(op, "na", st.proj()),
+            Err(m) => ctx.emit(op, "panic", merge(json!({"msg": m.replace('"', "'")}), st.proj())),
+        }
+    }
+    drop(st);
+    drop(leaks);
 }
